@@ -493,8 +493,13 @@ def run_c15(chk, prog):
     where = loc(wr["span"])
     nw = 0
     for p in paths:
+        if p.kind == "loopback":
+            continue
         if p.kind != "return":
-            chk.ob("C15.O5", "Frame::write has no panicking path", False, key="write:panic", where=where)
+            last = norm(p.decisions[-1][0]) if p.decisions else None
+            cap_assert = last is not None and "capacity" in fmt_term(last) and "assert_failed" in str(p.info)
+            # (the encoder's own assert_eq! on Vec capacity, when the encoder is inlined here: C01.O4's assumption)
+            chk.ob("C15.O5", "Frame::write has no panicking path", cap_assert, key="write:panic", where=where, detail=str(p.info))
             continue
         nw += 1
         cs = [e for e in p.trace if e[0] == "call"]
@@ -506,6 +511,10 @@ def run_c15(chk, prog):
             wa = uses_writer[0]
             selfref = enc[0][2][0]
             ok5 = wa[6][1] is not None and norm(wa[6][1]) == norm(enc[0][3]) and selfref[0] == "ref" and selfref[1][:2] == ("heap", "*self")
+        if not ok5 and not enc and len(uses_writer) == 1 and uses_writer[0][1] == "std::io::Write::write_all" and uses_writer[0][6][1] is not None:
+            # the encoder is reached through a shared helper instead of to_bytes_with_newline itself: the bytes written must
+            # be, as a value, what to_bytes_with_newline(self) returns
+            ok5 = written_equals_encoding(prog, models, wr, one(units.to_bytes_nl, "Frame::to_bytes_with_newline"))
         chk.ob("C15.O5", "the writer is used exactly once: write_all(&self.to_bytes_with_newline())", ok5, key="write:write_all", where=where,
                detail="calls touching the writer: %s" % [e[1].split("::")[-1] for e in uses_writer])
         if not ok5:
@@ -521,6 +530,41 @@ def run_c15(chk, prog):
     chk.note_analysed("functions", [rd["name"], wr["name"]])
     chk.assumptions += ["std::io::BufReader never buffers more than its capacity; BufRead::read_until consumes through the delimiter via fill_buf/consume and retries ErrorKind::Interrupted (std docs)",
                         "std::io::Write::write_all loops over short writes and retries ErrorKind::Interrupted (std docs)"]
+
+
+def alpha(t):
+    """drop the counters of fresh symbols so that values from two separate evaluations can be compared"""
+    import re as _re
+    if isinstance(t, tuple):
+        if t and t[0] == "sym" and isinstance(t[1], str):
+            return ("sym", _re.sub(r"#\d+", "#", t[1])) + tuple(t[2:])
+        return tuple(alpha(x) for x in t)
+    return t
+
+
+def strip_sites(t):
+    if isinstance(t, tuple):
+        if t and t[0] == "item" and len(t) >= 3:
+            return ("item", strip_sites(t[1]))
+        return tuple(strip_sites(x) for x in t)
+    return t
+
+
+def written_equals_encoding(prog, models, wr, enc_fn):
+    import p_frame
+    cx = p_frame.Codec(prog)
+    deep = {cx.payload["path"], cx.find_checksum()["path"]}
+    evd = Evaluator(prog, models, no_inline=lambda f: f["path"] in deep)
+    written = set()
+    for q in evd.run(wr):
+        for e in q.trace:
+            if e[0] == "call" and e[1] == "std::io::Write::write_all":
+                if e[6][1] is None:
+                    return False
+                written.add(strip_sites(alpha(norm(e[6][1]))))
+    evn = Evaluator(prog, models, no_inline=lambda f: f["path"] in deep)
+    encoded = set(strip_sites(alpha(norm(q.value))) for q in evn.run(enc_fn) if q.kind == "return")
+    return bool(written) and written <= encoded
 
 
 # ======================================================================================
